@@ -85,6 +85,17 @@ def fam_prec(values, name):
         for j in range(1, k + 1): sent.append([0, i, 0, j, 0]); sent.append([k + 1, 0, i, 0, j, 0])
     return Fam(name, 1, terms, rules, 40 + 4 * k, 40 + (k + 4) * (k + 4) * 3, [0, 1, k, k + 1], 5, sent, parse_prop='C05', note='precedence values %s' % (values,))
 
+def fam_rprec(values, name):
+    """explicit rule precedences [v] at values that an implementation might use as a marker for "none given": every operator term has precedence 7 (ltor),
+    rule i is E -> E op_i E [v_i]; correct resolution compares v_i with 7, a rule mistaken for "no explicit precedence" would take 7 from its last term"""
+    k = len(values)
+    terms = [(0, 0)] + [(7, 1)] * k
+    rules = [(0, [T(0)], None)] + [(0, [N(0), T(i + 1), N(0)], values[i]) for i in range(k)]
+    sent = []
+    for i in range(1, k + 1):
+        for j in (1, max(1, k // 2), k): sent.append([0, i, 0, j, 0])
+    return Fam(name, 1, terms, rules, 40 + 4 * k, 60 + (k + 4) * (k + 4) * 3, [0, 1, k], 5, sent, parse_prop='C05', note='explicit rule precedences %s against term precedence 7' % (values,))
+
 def fam_recover(Tn):
     """recovery with many terminals: statements S -> S stmt | eps ; stmt -> t_i ';' | error ';' for the highest terminals"""
     semi = Tn - 1
@@ -115,7 +126,8 @@ def families(tier='quick'):
          fam_prec([1, 2, 3, 4, 5, 6, 7, 8, 9], 'prec9levels'),
          fam_prec([INT_MIN, -70000, -32769, -1, 32767, 32768, 65536, 70000, INT_MAX], 'precwide'),
          fam_prec([-32768, 32768, 65535, 65537, 131072], 'prec16bit'),
-         fam_recover(63), fam_recover(129), fam_states(6, 64), fam_terms(258, strings=True), fam_long(257), fam_nterms(258)]
+         fam_recover(63), fam_recover(129), fam_states(6, 64), fam_terms(258, strings=True), fam_long(257), fam_nterms(258),
+         fam_rprec([INT_MIN, INT_MIN + 1, -65536, -32768, -2, -1, 1, 6, 7, 8, 32767, 65535, INT_MAX - 1, INT_MAX], 'rprecsentinel')]
     if tier != 'quick':
         F += [fam_terms(61), fam_terms(126), fam_terms(127), fam_terms(128), fam_terms(129), fam_terms(200), fam_terms(140, True), fam_terms(200, True),
               fam_rules(254), fam_rules(255), fam_rules(258), fam_rules(300), fam_nterms(130), fam_long(65), fam_recover(65), fam_recover(200), fam_states(7, 64), fam_terms(300, dense=False, strings=True), fam_terms(520, strings=True), fam_long(300)]
